@@ -15,6 +15,7 @@ CONSTANTS
   AliasGrants = TRUE
   CloseShortcut = FALSE
   MaxConflicts = 0
+  CancelIsTimeout = FALSE
   RecordScript = TRUE
 VIEW MView
 INVARIANTS MonSafetyHolds MonFinalHolds MonPremiseMet
